@@ -62,7 +62,7 @@ def fifo_program(cls_name, N, obs_dim, B, extra_adds):
 
     def prog(ctx):
         sym = not getattr(ctx, "is_replay", False)
-        with overlay(rb, np=NpShim(), jnp=JnpShim()) if sym else contextlib.nullcontext():
+        with overlay(rb, np=NpShim(), jnp=JnpShim()):
             buf = getattr(rb, cls_name)(N)
             n = int(sym_int("n_adds", 0, N + extra_adds))
             ref = []
@@ -96,7 +96,7 @@ def content_program(cls_name, N, obs_dim, extra_adds):
 
     def prog(ctx):
         sym = not getattr(ctx, "is_replay", False)
-        with overlay(rb, np=NpShim(), jnp=JnpShim()) if sym else contextlib.nullcontext():
+        with overlay(rb, np=NpShim(), jnp=JnpShim()):
             buf = getattr(rb, cls_name)(N)
             n = int(sym_int("n_adds", 1, N + extra_adds))
             ref = []
@@ -122,7 +122,7 @@ def multitask_program(T, N, n_ops):
 
     def prog(ctx):
         sym = not getattr(ctx, "is_replay", False)
-        with overlay(rb, np=NpShim(), jnp=JnpShim()) if sym else contextlib.nullcontext():
+        with overlay(rb, np=NpShim(), jnp=JnpShim()):
             mt = rb.MultiTaskReplayBuffer(rb.ReplayBuffer(N), T)
             ref = [[] for _ in range(T)]
             sel = 0
